@@ -496,7 +496,7 @@ def iterate(I, o):
     if isinstance(o, (list, tuple, str, range, bytes)):
         return o
     if isinstance(o, (set, frozenset)):
-        return set_order(I, o)
+        return [x.s if isinstance(x, SymKey) else x for x in set_order(I, o)]      # interpreted code sees the member's text
     if isinstance(o, SymStr):
         a = o.flat()
         n = concretize(I, SymInt(a.n), limit=a.m + 1) if not isinstance(a.n, int) else a.n
@@ -547,7 +547,7 @@ def set_order(I, s):
 def iterate_unordered(I, o):
     """iteration whose order cannot influence the result (sorted(), set(), all(), ...): no fork"""
     if isinstance(o, (set, frozenset)):
-        return canonical_set_items(I, o)
+        return [x.s if isinstance(x, SymKey) else x for x in canonical_set_items(I, o)]
     return iterate(I, o)
 
 
